@@ -8,5 +8,7 @@ SCR=$(mktemp -d "${TMPDIR:-/var/tmp}/verif-setup.XXXXXX")
 trap 'rm -rf "$SCR"' EXIT
 (cd /repo && go build -o "$SCR/crd" ./cmd)
 (cd "$VERIF/engine" && go build -tags verif -o "$SCR/vcheck" ./cmd/vcheck && go vet -tags verif ./... >/dev/null 2>&1 || true)
+# self-tests of the explorer and of the reference models (textbook facts written by hand)
+(cd "$VERIF/engine" && go test ./mc ./ref/... >"$SCR/selftest.log" 2>&1) || { cat "$SCR/selftest.log"; echo "self-tests of the engine failed" >&2; exit 1; }
 mkdir -p "$VERIF/evidence" "$VERIF/replay"
 echo setup ok
